@@ -589,6 +589,11 @@ def _result_digest(r):
             return type(r).__name__ + ":" + ops.expr_signature(r)
         except BaseException:  # noqa: B036
             return type(r).__name__ + ":unsigned"
+    if isinstance(r, str):
+        import re
+
+        # str(expr): the counts of free / summation indices are spelled out
+        return re.sub(r"i_(\d+|\{\d+\})", "i_N", r)
     return repr(r)
 
 
